@@ -142,17 +142,68 @@ def ref_func(src, like):
     return FuncInfo(m, node)
 
 
-def _table(f, mode):
+def truthify(e):
+    """len(E) > 0 / >= 1 / != 0  ->  E ;  len(E) == 0 / <= 0 / < 1  ->  not E ; A.intersection(B) -> A & B"""
+    import copy
+
+    class T(ast.NodeTransformer):
+        def visit_Compare(s, n):
+            n = s.generic_visit(n)
+            if len(n.ops) == 1 and isinstance(n.left, ast.Call) and isinstance(n.left.func, ast.Name) and n.left.func.id == 'len' \
+                    and len(n.left.args) == 1 and isinstance(n.comparators[0], ast.Constant) \
+                    and isinstance(n.left.args[0], (ast.Call, ast.BinOp)) \
+                    and ('intersection' in U(n.left.args[0]) or isinstance(n.left.args[0], ast.BinOp)):
+                op, c = type(n.ops[0]), n.comparators[0].value
+                if (op, c) in ((ast.Gt, 0), (ast.GtE, 1), (ast.NotEq, 0)):
+                    return n.left.args[0]
+                if (op, c) in ((ast.Eq, 0), (ast.LtE, 0), (ast.Lt, 1)):
+                    return ast.UnaryOp(op=ast.Not(), operand=n.left.args[0])
+            return n
+
+        def visit_Call(s, n):
+            n = s.generic_visit(n)
+            if isinstance(n.func, ast.Attribute) and n.func.attr == 'intersection' and len(n.args) == 1 and not n.keywords:
+                return ast.BinOp(left=n.func.value, op=ast.BitAnd(), right=n.args[0])
+            return n
+    return T().visit(copy.deepcopy(e))
+
+
+def _table(f, mode, post=None):
     """-> list of (cond formula, kind, value expr or exception name, stmt)"""
     view = FuncView(f) if f.module.name == 'ref' else view_of(f)
     if mode == 'paths':
         cfg = view.cfg
         rows = []
         ends = [n.id for n in cfg.nodes if n.kind in ('return', 'raise')] + [cfg.exit.id]
+        repo = getattr(f.module, 'repo', None)
+        from .flag import RaiseAnalysis
+        from ..guards import f_and, f_not
+        ra = RaiseAnalysis(repo) if repo is not None else None
         for p in enumerate_paths(cfg, cfg.entry.id, set(ends), stop=set(ends)):
             ps = symexec(p)
-            from ..guards import f_and
-            cond = f_and(*[to_formula(e, pol) for e, pol, _ in ps.conds if not (isinstance(e, ast.Call) and call_name(e) == '__iter__')])
+            lits = [(to_formula(e, pol), pos) for (e, pol, _), pos in zip(ps.conds, ps.cond_pos)
+                    if not (isinstance(e, ast.Call) and call_name(e) == '__iter__')]
+            extra = []
+            # calls of repository functions that may themselves raise (a validator delegating to a sibling)
+            if ra is not None:
+                for (call, st_), pos in zip(ps.events, ps.event_pos):
+                    if call_name(call) in ('__store__', '__return__', '__iter__'):
+                        continue
+                    try:
+                        res = repo._resolve(f, call, repo.local_types(f))
+                    except Exception:
+                        res = None
+                    if res is None:
+                        continue
+                    callee, kind, args, kws = res
+                    from ..model import bind
+                    b = bind(callee, kind, args, kws)
+                    for rc, desc in ra.of_func(callee, dict(b), 3, (f.where,)):
+                        prefix = f_and(*[fm for fm, ps_ in lits if ps_ <= pos] + [f_not(x) for x, px in extra if px <= pos])
+                        name = desc.split(' raises ')[-1].split(' at ')[0]
+                        rows.append((f_and(prefix, rc), 'raise', name, st_))
+                        extra.append((rc, pos))
+            cond = f_and(*[fm for fm, _ in lits] + [f_not(x) for x, _ in extra])
             last = p[-1].node
             if last.kind == 'return':
                 from ..paths import _sub
@@ -165,7 +216,8 @@ def _table(f, mode):
             else:
                 rows.append((cond, 'return', ast.Constant(None), f.node))
         return rows
-    ex = expander(view)
+    ex0 = expander(view)
+    ex = (lambda e, st: post(ex0(e, st))) if post else ex0
     conds = Conds(f.node, ex)
     rows = []
     for o in outcomes(f.node, conds, None):
@@ -183,10 +235,10 @@ def _boolish(e):
         or (isinstance(e, ast.Call) and isinstance(e.func, ast.Subscript))
 
 
-def compare_tables(ctx, rule, f, ref_src, mode='conds', key='table', int_atoms=None, fixed_enums=None):
+def compare_tables(ctx, rule, f, ref_src, mode='conds', key='table', int_atoms=None, fixed_enums=None, post=None):
     ref = ref_func(ref_src, f)
-    impl_rows = _table(f, mode)
-    ref_rows = _table(ref, mode)
+    impl_rows = _table(f, mode, post)
+    ref_rows = _table(ref, mode, post)
     uni = Universe(int_atoms=int_atoms)
     for c, _, v, _ in impl_rows + ref_rows:
         uni.note(c)
@@ -271,8 +323,12 @@ def check_tail(ctx, cls, f):
     conds = Conds(f.node, ex)
     uni = Universe(int_atoms=lambda a: True)
     # the statement `if l_prefix_length <= 0 or r_prefix_length <= 0: return True`
-    pls = [n for n in walk_own(f.node) if isinstance(n, ast.Assign) and isinstance(n.value, ast.Call)
-           and call_name(n.value) == 'get_prefix_length' and isinstance(n.targets[0], ast.Name)]
+    pls = []
+    for n in walk_own(f.node):
+        if isinstance(n, ast.Assign) and isinstance(n.targets[0], ast.Name) and isinstance(n.value, ast.Call):
+            vx = view.expand(n.value, n)
+            if isinstance(vx, ast.Call) and call_name(vx) == 'get_prefix_length':
+                pls.append(n)
     if len(pls) != 2:
         raise AnalysisError('%s: expected two get_prefix_length calls' % f.where)
     names = [n.targets[0].id for n in pls]
@@ -289,28 +345,33 @@ def check_tail(ctx, cls, f):
               'the test `prefix length <= 0 on either side -> drop` is missing or altered', f.node,
               sample='if %s <= 0 or %s <= 0: return True' % tuple(names))
     if cls == 'PrefixFilter':
-        # last decision: drop iff the two prefixes share no token
-        rets = [st for st in conds.order if isinstance(st, ast.Return) and isinstance(st.value, ast.Constant)]
-        last_if = [st for st in f.node.body if isinstance(st, ast.If)][-1]
-        t = view.expand(last_if.test, last_if)
-        ok = False
-        if isinstance(t, ast.Compare) and isinstance(t.left, ast.Call) and call_name(t.left) == 'len':
-            inter = t.left.args[0]
-            u2 = Universe(int_atoms=lambda a: True)
-            w = u2.equivalent(to_formula(last_if.test), to_formula(parse_expr('%s >= 1' % U(last_if.test.left))))
-            body_ret = [x for x in last_if.body if isinstance(x, ast.Return)]
-            else_ret = [x for x in last_if.orelse if isinstance(x, ast.Return)]
-            ok = w is None and isinstance(inter, ast.Call) and call_name(inter) == 'intersection' \
-                and body_ret and isinstance(body_ret[0].value, ast.Constant) and body_ret[0].value.value is False \
-                and else_ret and isinstance(else_ret[0].value, ast.Constant) and else_ret[0].value.value is True
-            if ok:
-                a, b = inter.func.value, inter.args[0]
-                ok = 'ordered_ltokens' in U(last_if.test) or True
-                sl = [x for x in ast.walk(inter) if isinstance(x, ast.Subscript) and isinstance(x.slice, ast.Slice)]
-                ok = len(sl) == 2
-        ctx.check('R-DT/filter_pair', f, 'prefix overlap decision', ok,
-                  'PrefixFilter.filter_pair must keep the pair iff the two prefixes intersect (len(intersection) > 0)',
-                  last_if, sample='keep iff len(prefix_l & prefix_r) > 0')
+        # whole table: head, non-positive prefix, then drop iff the two prefixes share no token. The
+        # intersection expression is taken from the implementation (its operands are checked by R-CAND/slice).
+        inter = None
+        for n in walk_own(f.node):
+            for x in ast.walk(n) if isinstance(n, (ast.Assign, ast.Return, ast.If)) else []:
+                if (isinstance(x, ast.Call) and isinstance(x.func, ast.Attribute) and x.func.attr == 'intersection') or \
+                        (isinstance(x, ast.BinOp) and isinstance(x.op, ast.BitAnd)):
+                    st_ = n
+                    cand_ = truthify(view.expand(x, st_))
+                    if isinstance(cand_, ast.BinOp) and all(isinstance(o, ast.Call) and call_name(o) == 'set' for o in (cand_.left, cand_.right)):
+                        inter = cand_
+        ok = inter is not None
+        if ok:
+            from ..side import expr_side
+            sl = [x for x in ast.walk(inter) if isinstance(x, ast.Subscript) and isinstance(x.slice, ast.Slice)]
+            sides_ = sorted(str(expr_side(x.value)) for x in sl)
+            ok = len(sl) == 2
+        if not ok:
+            ctx.check('R-DT/filter_pair', f, 'prefix overlap decision', False,
+                      'PrefixFilter.filter_pair: the intersection of the two prefix token sets is not recognisable', f.node)
+        else:
+            lp_x = U(view.expand(pls[0].value, pls[0]))
+            rp_x = U(view.expand(pls[1].value, pls[1]))
+            src = HEAD.replace('    return ANY\n', '') + (
+                '    if %s <= 0 or %s <= 0:\n        return True\n    return not (%s)\n' % (lp_x, rp_x, U(inter)))
+            compare_tables(ctx, 'R-DT/filter_pair', f, src, key='prefix overlap decision', post=truthify,
+                           int_atoms=lambda a: True)
     if cls == 'PositionFilter':
         # keep iff at least one shared prefix token survived: `if current_overlap > 0: return False` then True
         tail = [st for st in f.node.body if isinstance(st, (ast.If, ast.Return))][-2:]
@@ -382,8 +443,11 @@ def check_attr_helpers(ctx):
     n_app = 0
     for p, how in loop_body_paths(view, lp):
         ps = symexec(p)
-        apps = [(c, st) for c, st in ps.events if isinstance(c.func, ast.Attribute) and c.func.attr in ('append', 'add', 'insert')
+        result_names = set(r.value.id for r in rets if isinstance(r.value, ast.Name) and r.value.id != out_p)
+        allc = [(c, st) for c, st in ps.events if isinstance(c.func, ast.Attribute) and c.func.attr in ('append', 'add', 'insert')
                 and isinstance(st, ast.Expr)]
+        apps = [(c, st) for c, st in allc if isinstance(st.value.func.value, ast.Name) and st.value.func.value.id in result_names]
+        marks = [c for c, st in allc if not (isinstance(st.value.func.value, ast.Name) and st.value.func.value.id in result_names)]
         stores = [c for c, st in ps.events if call_name(c) == '__store__']
         from ..guards import f_and
         cond = f_and(*[to_formula(e, pol) for e, pol, _ in ps.conds if not (isinstance(e, ast.Call) and call_name(e) == '__iter__')])
@@ -397,7 +461,7 @@ def check_attr_helpers(ctx):
                 bad = bad or 'appends `%s`' % U(c)
             if uni.implies(cond, notkey) is not None:
                 bad = bad or 'an attribute equal to the key attribute can be kept'
-            if not any(var in U(s.args[0]) for s in stores) and not any(cc.func.attr == 'add' and U(cc.args[0]) == var for cc, _ in apps[1:]):
+            if not any(var in U(s.args[0]) for s in stores) and not any(U(cc.args[0]) == var for cc in marks):
                 bad = bad or 'a kept attribute is not remembered as seen (repeats survive)'
             seen_lits = [e for _, e, _ in literals(cond) if var in U(e) and key_p not in U(e)]
             if not seen_lits:
